@@ -632,6 +632,9 @@ func main() {
 	w.px[0].Stop()
 	w.px[1].Stop()
 
+	extraPhases(run)
+	run.Require("h2_long_connection_uploads", 300)
+	run.Require("duplex_uploads_h1-chunked", 3)
 	run.Require("requests_compared_at_backend", int64(run.Pick(2500, 35000)))
 	run.Require("responses_compared_at_client", int64(run.Pick(2500, 35000)))
 	run.Require("exchanges_h1", 50)
